@@ -4,6 +4,7 @@ import numpy as np
 import xarray as xr
 from typing_extensions import Self
 
+from .._verif import emit as _verif_emit
 from ..base_model import BaseModel
 from ..data_container import DataContainer
 from ..linalg.rotation import promax
@@ -436,6 +437,7 @@ class CPCCARotator(CPCCA):
 
     def _sort_by_variance(self):
         """Re-sort the mode dimension of all data variables by variance explained."""
+        _verif_emit("sort_applied", cls=type(self).__name__, applied=not self.sorted)
         if not self.sorted:
             for key in self.data.keys():
                 if "mode" in self.data[key].dims and key != "idx_modes_sorted":
